@@ -382,7 +382,9 @@ PROPS = {
         "parts": [
             {"pkg": "internal/system", "files": ["system/zz_verif_policy_test.go"], "run": "TestVerif_C11", "patches": DIAL_PATCHES, "shards": {"quick": 4, "thorough": 8}},
             {"pkg": "internal/system", "files": ["system/zz_verif_policy_test.go"], "run": "TestVerif_C11sysctl", "patches": DIAL_PATCHES + SYSCTL_PATCHES, "shards": {"quick": 4, "thorough": 8}},
-            {"pkg": "internal/system", "files": ["system/zz_verif_two_test.go"], "run": "TestVerif_C11two"},
+            {"pkg": "internal/system", "files": ["system/zz_verif_two_test.go"], "run": "TestVerif_C11two", "race": True, "tiers": ["quick"], "shards": {"quick": 2, "thorough": 2}},
+            # (the race runtime fails under hundreds of thousands of bubbles - section 9 -, so the thorough tier runs this part without it)
+            {"pkg": "internal/system", "files": ["system/zz_verif_two_test.go"], "run": "TestVerif_C11two", "tiers": ["thorough"], "shards": {"quick": 2, "thorough": 8}},
             e2e_part("TestVerif_C11main"),
         ],
         "level": "fault_enumeration",
